@@ -188,3 +188,20 @@ Proof.
   intros s e Hs. rewrite (gen_index_from_str_eq s Hs).
   destruct (index_from_str s) as [i|me]; [discriminate|]. intros [= <-]. eauto.
 Qed.
+
+(* ==== Token::to_index itself =============================================================================================
+   `Token::to_index` is `self.try_into()`, i.e. `<Index as TryFrom<&Token>>::try_from`, i.e. `Index::from_str(token.encoded())`.
+   All three are re-translated; the generated tree walks use the primitive [prim_to_index] for `token.to_index()`: here the two are
+   shown to be the same function (on Rust strings), so the primitive is no longer a separate assumption. *)
+From JP Require Import Generated.ScanToken Proofs.GenEquivToken.
+
+Theorem gen_Token_to_index_is_prim : forall t : Token, utf8_valid (cow_text (Token_inner t)) = true ->
+  gen_Token_to_index t = Ret (prim_to_index t) /\ gen_Index_try_from_ref_Token t = Ret (prim_to_index t).
+Proof.
+  intros t H. unfold gen_Token_to_index, gen_Index_try_from_ref_Token.
+  rewrite gen_encoded_eq. rewrite (prim_to_index_is_generated t H). split; reflexivity.
+Qed.
+
+Theorem gen_Token_is_next_eq : forall t : Token,
+  gen_Token_is_next t = Ret (match prim_to_index t with Ok Index_Next => true | _ => false end).
+Proof. intros t. unfold gen_Token_is_next. destruct (prim_to_index t) as [[n|]|e]; reflexivity. Qed.
